@@ -173,11 +173,17 @@ def flt(k: List[(Int, Int)]) -> Int =>
     for (p, q) in k do print(p - q)
     1
 def vtt: T := T(1)
+def pr() => print(0)
+class Acc(def bal: Int)
+    def dep(self, k: Int) => self.bal := self.bal + k
+def vacc: Acc := Acc(1)
 """
 MATRIX_VALUES = {"Int": ["3", "vi"], "Float": ["2.5", "vf"], "Str": ['"s"', "vs"], "Bool": ["True", "vb"], "List": ["[1, 2]", "vl"],
                  "A": ["A(1)", "va"], "OptInt": ["ni"], "OptA": ["na"], "None": ["None"], "Fun": ["fi"],
                  "Tuple": ["(1, 2)", "vt"], "TupleMixed": ['(1, "a")', "vtm"], "ListTuple": ["[(1, 2)]", "vlt"],
-                 "ListTupleMixed": ['[(1, "x")]', "vltm"], "Dict": ['{"k" => 1}', "vd"]}
+                 "ListTupleMixed": ['[(1, "x")]', "vltm"], "Dict": ['{"k" => 1}', "vd"],
+                 # calls that have no value (a function / method without return type)
+                 "Unit": ["pr()", "vacc.dep(5)"]}
 BINARY = ["+", "-", "*", "/", "//", "mod", "^", "<", "<=", ">", ">=", "=", "!=", "and", "or", "in", "_and_", "_or_", "_xor_", "<<",
           ">>", "is", "?"]
 UNARY = ["-", "not ", "_not_ ", "sqrt "]
@@ -226,6 +232,14 @@ def operator_matrix():
             add("list_of:%s" % a, ["def r: List[Int] := [%s]" % w, "print(r[0] + 1)"])
             add("list_tuple_init:%s" % a, ["def r: List[(Int, Int)] := %s" % w, "for (p, q) in r do print(p - q)"])
         add("attribute:%s" % a, ["def r := %s.a" % v, "print(1)"])
+        for w in MATRIX_VALUES[a]:
+            add("attribute_as_argument:%s" % a, ["fi(%s.a)" % w])
+            add("attribute_as_initialiser:%s" % a, ["def r: Int := %s.bal" % w, "print(1)"])
+            add("attribute_returned:%s" % a, ["def fr() -> Int =>", "    return %s.bal" % w, "print(fr())"])
+            add("step:%s" % a, ["for i in 0 .. 4 .. %s do print(i)" % w])
+            add("step_inclusive:%s" % a, ["for i in 0 ..= 4 .. %s do print(i)" % w])
+            add("slice_step:%s" % a, ["def r := vl[0 :: 2 :: %s]" % w, "print(1)"])
+            add("step_expression:%s" % a, ["for i in 0 .. 4 .. (1 + %s) do print(i)" % w])
         add("attribute_unknown:%s" % a, ["def r := %s.nope" % v, "print(1)"])
         add("method_unknown:%s" % a, ["def r := %s.nope(1)" % v, "print(1)"])
         add("interpolation:%s" % a, ['def r := "x{%s}y"' % v, "print(r)"])
@@ -275,11 +289,13 @@ def _f47(name):
 
 def _f48(name):
     k, a = _cell(name)
-    return k == "attribute" and a[0] == "OptA"
+    return k in ("attribute", "attribute_as_argument", "attribute_as_initialiser", "attribute_returned") and a[0] == "OptA"
 
 
 def _f49(name):
     k, a = _cell(name)
+    if k in ("step", "step_inclusive", "slice_step", "step_expression"):
+        return a[0] in ("Float", "OptInt")
     return k == "range" and (a[0] in ("Float", "OptInt") or a[1] in ("Float", "OptInt")) and \
         a[0] in ("Float", "OptInt", "Int") and a[1] in ("Float", "OptInt", "Int")
 
